@@ -327,3 +327,39 @@ func guardCallOn(name, kind, spec string, v ssa.Value) Guard {
 		return len(args) > 0 && (sameValue(args[0], v) || w.expr(args[0]) == w.expr(v))
 	}}
 }
+
+// ------------------------------------------------------------------ C11.R8
+// Who is named byzantine by light-client-attack evidence: only validators whose slot in the conflicting
+// commit is *for the block* (those are the signatures commit verification checked); in a same-round
+// (equivocation) attack also only those whose slot in the trusted commit is for the block. The pool compares
+// the evidence's list with this function's result, and the application punishes the validators on it.
+func init() {
+	register("C11", "R8", "K1", "light-client-attack evidence names a validator byzantine only on the strength of verified (for-block) signatures", 3, func(c *Ctx) {
+		w := c.W
+		f := c.fn("types", "LightClientAttackEvidence.GetByzantineValidators")
+		if f == nil {
+			return
+		}
+		fk := funcKey(f)
+		conf := `l\.ConflictingBlock\.SignedHeader\.Commit\.Signatures\[` + fwdIdx + `\]`
+		trus := `trusted\.Commit\.Signatures\[` + fwdIdx + `\]`
+		n := 0
+		for _, call := range w.callsTo(f, "builtin#append") {
+			n++
+			key := fmt.Sprintf("%s :: name a validator #%d", fk, n)
+			c.guards(f, call, key, 0, guardRe("its slot in the conflicting commit is for the block", `^true\(`+conf+`\.ForBlock\(\)\)$`))
+			sameRound := false
+			for _, a := range w.necessaryAtoms(f, call) {
+				if strings.Contains(a, "Commit.Round == ") {
+					sameRound = true
+				}
+			}
+			if sameRound {
+				c.guards(f, call, key, 0, guardRe("its slot in the trusted commit is for the block", `^true\(`+trus+`\.ForBlock\(\)\)$`))
+			} else {
+				c.guards(f, call, key, 0, guardRe("it is a member of the common validator set", `^nonnil\(commonVals\.GetByAddress\(`+conf+`\.ValidatorAddress\)#1\)$`))
+			}
+		}
+		c.Check(n == 2, fk+" :: lunatic and equivocation branches found", w.pos(f.Pos()), "2 appends", fmt.Sprintf("%d appends", n))
+	})
+}
